@@ -24,13 +24,23 @@ def guard_cfg(ck: Checker, f: FuncInfo, calls=('preprocess',)):
 
 
 def clean_value(ck: Checker, rid: str, f: FuncInfo, cfg: CFG, g: Guard, node: Node, var: str, what: str):
-    """Obligation: at `node`, `var` is proven neither an Exception nor a RemoteException."""
-    probs = []
-    for cls in ('Exception', 'RemoteException'):
-        if not g.excluded(node.id, var, cls):
-            ce = g.counterexample(node.id, var, cls)
-            probs.append(f'`{var}` may be a {cls} here (a path reaches this point knowing only {ce})')
-    ck.ob(rid, f, node.ast, not probs, '; '.join(probs) if probs else f'{what}: on every path `{var}` has been tested not to be an Exception / RemoteException ({len(g.at(node.id))} path condition(s) examined)')
+    """Obligation: at `node`, on every path, `var` is proven neither an Exception nor a RemoteException,
+    or is a freshly computed value (the result of a successful user preprocess / an element of a result)."""
+    lat = cfg.lat
+    bad = None
+    S = g.at(node.id)
+    for d in S:
+        facts = [x for x in d if x[1] == var]
+        if any(x[0] == 'derived' for x in facts):
+            continue
+        neg = [x[2] for x in facts if x[0] == 'neg']
+        pos = [x[2] for x in facts if x[0] == 'pos']
+        not_exc = any(lat.is_sub('Exception', k) for k in neg)
+        not_re = 'RemoteException' in neg or any(p_ not in lat.other for p_ in pos)
+        if not (not_exc and not_re):
+            bad = (sorted(facts), 'an Exception' if not not_exc else 'a RemoteException')
+            break
+    ck.ob(rid, f, node.ast, bad is None, f'`{var}` may be {bad[1]} here (a path reaches this point knowing only {bad[0]})' if bad else f'{what}: on every path `{var}` has been tested not to be an Exception / RemoteException, or is the fresh result of the preprocess step ({len(S)} path condition(s) examined)')
 
 
 def run(ck: Checker):
@@ -261,8 +271,8 @@ def check_deadline_shape(ck: Checker, rid: str, f: FuncInfo, *, queue: str, wait
             if e.kind == 'exc' and 'Empty' in (e.data or ()):
                 dst = cfg.nodes[e.dst]
                 if dst.kind == 'except':
-                    p = path_avoiding(cfg, [dst.id], {loop.id}, avoid=set())
-                    # must leave: no path from handler back to the loop head
+                    # must leave: no path from the handler back to the loop head within the same batch
+                    p = path_avoiding(cfg, [dst.id], {loop.id}, avoid={x.id for x, _ in firsts} | {k.id for k in cfg.nodes if isinstance(k.ast, ast.Expr) and isinstance(k.ast.value, ast.Yield)})
                     if p is not None:
                         probs.append('after queue.Empty the loop goes on waiting instead of releasing the partial batch')
                 else:
